@@ -409,9 +409,11 @@ def main(ctx):
     col.extra["table_rows_checked"] = n_checked
     col.extra["notes"] = notes
     col.extra["exhaustive_parts"] = "uniqueness of (vendor, code) over all subclasses; published identity of every class vs vendored dictionary, docs/list-of-avps.md, definitions.py; out-of-domain table per class"
+    # dispatch from the first decode of a process on, also when two threads make it at the same time (fresh interpreter per scenario)
+    list(common.first_use_sweep(col, "c02", "decoding dispatches each (vendor, code) to its class - from the first decode of the process, in every thread"))
     for path, rec in common.load_replays(PID):
         col.record(rec["case"], run_case(rec["case"]), nontrivial=True, classes=["replay"])
-    ctx.required_classes = ["out-of-domain", "out-of-domain-on-the-wire", "in-domain", "missing-mandatory", "tables", "aware-datetime"] + ["type=" + t for t in TYPE_NAMES]
+    ctx.required_classes = ["first-use-parked-mid-call", "out-of-domain", "out-of-domain-on-the-wire", "in-domain", "missing-mandatory", "tables", "aware-datetime"] + ["type=" + t for t in TYPE_NAMES]
     ctx.assumptions = ["domains per data type as tabled in DESIGN C10 / bad_values(); ints for Address and bools are not judged; "
                        "Address families other than 1/2 are not judged; IPFilterRule is accepted as OctetString"]
     return col
